@@ -85,6 +85,7 @@ func run(def rules.PropDef, prop, tier string, seed int64, repo, verif, only str
 			return 1
 		}
 		ctx := rules.NewCtx(p)
+		ctx.Verif = verif
 		obs := def.Run(ctx)
 		name := cf[0] + "/" + cf[1]
 		if cf[0] == "" {
